@@ -266,8 +266,14 @@ func (e *ErrSpec) Build() error {
 	}
 	switch e.Literal {
 	case "canceled":
+		if e.Wrap == "w" {
+			return fmt.Errorf("handler gave up: %w", context.Canceled)
+		}
 		return context.Canceled
 	case "deadline":
+		if e.Wrap == "w" {
+			return fmt.Errorf("handler gave up: %w", context.DeadlineExceeded)
+		}
 		return context.DeadlineExceeded
 	}
 	if e.Plain {
@@ -521,6 +527,9 @@ func (r *runner) final() error {
 	}
 	if r.p.Final.CtxErr {
 		<-r.ctx.Done()
+		if r.p.Final.Wrap == "w" {
+			return fmt.Errorf("handler gave up: %w", r.ctx.Err())
+		}
 		return r.ctx.Err()
 	}
 	return r.p.Final.Build()
